@@ -32,7 +32,7 @@ ANCHORS = ["decaylanguage.modeling.ampgen2goofit:ampgen2goofit", "decaylanguage.
            "decaylanguage.modeling.goofit:GooFitChain.make_amplitude", "decaylanguage.modeling.goofit:GooFitPyChain.make_amplitude"]
 WORKERS = {"quick": 8, "thorough": 16}
 WATCHDOG = {"quick": 900, "thorough": 3300}
-REQUIRED = {"conversion-after-a-failed-conversion-by-one-converter": 5, "free-coupling": 5, "fixed-coupling": 5, "free-parameter": 5, "fixed-parameter": 5, **{f"lineshape:{k}": 3 for k in A.LS_KINDS}, "spline-array": 3,
+REQUIRED = {"conjugate-event-type": 3, "conversion-after-a-failed-conversion-by-one-converter": 5, "free-coupling": 5, "fixed-coupling": 5, "free-parameter": 5, "fixed-parameter": 5, **{f"lineshape:{k}": 3 for k in A.LS_KINDS}, "spline-array": 3,
             "kmatrix-arrays": 3, "entry:returned-string": 10, "entry:printed": 10, "entry:command-line": 2, "shipped-model": 1, "python-executed": 10,
             "cross-language-compared": 10, "file-converted-again-after-another": 5, "converters-with-different-histories": 2}
 ASSUMPTIONS = ["GooFit itself is not installed: the Python output runs against a recording stand-in whose vocabulary (Variable, DecayInfo4, Lineshapes.*, FF, SpinFactor, "
@@ -290,6 +290,9 @@ def run(ctx):
         lsk = kinds[(i + ctx.shard) % 4]
         picks = [(f, w, lsk) for f, w in rng.sample(A.STRUCTURES, 3)]
         model = A.gen_fourbody(rng, rng.randrange(3), picks)
+        if i % 3 == 2:
+            model = A.mirror_fourbody(model)       # the charge-conjugate process (Dbar0 -> K+ pi- ...): every name in its conjugate spelling
+            ctx.hit("conjugate-event-type")
         check_model(ctx, model, rng.randrange(10**9), cli=(i == 0 and ctx.shard < ctx.pick(2, 8)))
         if len(ctx.violations) >= ctx.max_violations:
             return
